@@ -75,10 +75,8 @@ func doAclCheck(method string, path string, token *jwt.Token, core *security.Ser
 		action = "read"
 	}
 
-	for _, ac := range acl {
-		if core.CheckGranted(ac, path, action) {
-			return nil
-		}
+	if core.IsGranted(acl, path, action) {
+		return nil
 	}
 
 	return echo.NewHTTPError(http.StatusForbidden, "user does not have permission")
